@@ -69,3 +69,7 @@ def symbolic_run():
 
 def uf_str(name, arg):
     raise RuntimeError('uninterpreted functions exist in symbolic runs only (guard with symbolic_run())')
+
+
+def opaque(tag, *deps):
+    raise RuntimeError('opaque values exist in symbolic runs only')
